@@ -132,6 +132,13 @@ CHECKS["C05"] = dict(
   note="No reference model: the oracle is equality between runs of the code under test. Order dependence is observed only if the Go runtime iterates a map differently in one of the 24-32 runs of a case (about 1/8 per range for a two-entry map with Go 1.23), so a single tie can stay unseen in one case with probability of a few percent; features recur over hundreds of cases.",
   design="DESIGN.md section 4, C05")
 
+CHECKS["C01"] = dict(
+  category="exploration",
+  technique="rapid generation of hostile module sets (mutated valid sets from the schema model, keyword soup over the whole vocabulary, parametrised cycle/absence/degenerate templates) through a fixed load-process-read-reprocess script, with panic capture, worker-death attribution by the driver and a per-case watchdog; native Go fuzzing over bytes in the thorough tier",
+  text="Every case (up to 4 texts and an option triple) runs the full script: generic parse, load, Process, read-back of every tree and accessor incl. path lookups with mangled and wrongly prefixed paths, Process again, read-back again. A panic is caught and attributed to the innermost goyang frame; a fatal runtime error (stack overflow) kills the worker, whose case in flight the driver re-runs in a fresh process to confirm; a case exceeding 60 s is a hang. Three generators aim at the known crash surfaces: statement-level mutations of valid sets, any-keyword-under-any-keyword soup, and templates for reference cycles of length 1-4 over typedef/uses/identity/include/import at every scope and across modules, absent modules and prefixes, lone submodules, bad augment and deviation targets, duplicates, hostile numbers, degenerate types. Absence of crashes is sampled, never established.",
+  note="Inputs up to 64 KiB; 'bounded time' is decided as 'well under 60 s'. Recursion proportional to brace nesting is bounded by input size.",
+  design="DESIGN.md section 4, C01")
+
 PENDING = {}
 
 def main():
